@@ -82,6 +82,15 @@ Definition dispatch (cmd : string) (args : list string) : string :=
                            | Ok d => json_of_res json_of_pyval (Output.format "sql" false [PDict d])
                            | _ => JObj [("unsupported", JStr "denote")] end)]
       end
+  | "tabx_spec", norm :: rest =>
+      match tablex_of_args rest with
+      | None => JObj [("unsupported", JStr "bad table-with-clauses-after args")]
+      | Some tx =>
+        let nb := String.eqb norm "1" in
+        JObj [("wf", JBool (Table.wf_x nb tx));
+              ("lexemes", JArr (map (fun lx => JArr [JStr (fst lx); JStr (snd lx)]) (Table.lexemes_x tx)));
+              ("denote", json_of_res (fun d => json_of_pyval (PDict d)) (Table.denote_x nb tx))]
+      end
   | "alt_spec", norm :: rest =>
       match alter_of_args rest with
       | None => JObj [("unsupported", JStr "bad alter args")]
